@@ -20,6 +20,11 @@ def harnesses(tier):
                            pool_off=True, unwind=12, unwindset=['mmd_export_token_html:3', 'mmd_export_token_tree_html:3', 'has.0:170', 'has.1:170', 'strlen.0:24'], object_bits=12, timeout=1500, mem_gb=8, replay=False,
                            functional=True, bounds='2 explicit calls (%s)%s, any random seed base, extension bits RANDOM_FOOT/SMART/COMPLETE' % ('first use + re-use' if reuse else 'two first uses', ' + a nested first use while the list is printed' if nest else ''),
                            desc='%s anchors: call href == entry id, back-link == id of first call, entries 1..n, every used note listed' % nm))
+    hs.append(dict(name='c10_heading_ids', src='c10/headings.c', defs=dict(DS_CAP=16), pool_off=True,
+                   units=[dict(src='repo:writer.c', remove=['manual_label_from_header', 'label_from_token', 'link_new'], cflags=['-include', 'vh_libc.h']), 'repo:token.c', 'repo:stack.c', 'repo:object_pool.c', 'repo:char.c', 'common/ds_model.c'],
+                   nobody_ok='*', ignore_failed=['no-body'], unwind=12, timeout=600, mem_gb=6, functional=True,
+                   bounds='ATX level 1..6 with/without closing marker, Setext 1 and 2, with/without manual label, all extension words',
+                   desc='process_header_to_links vs label_from_header: the automatic link of a heading is built from the same source span as the id the writers print'))
     return hs
 
 CLAIM = dict(
